@@ -71,6 +71,11 @@ func Finish(root, prop, tier string, ck *Check, total *explore.Counters, crashes
 	nviol := 0
 	for _, cl := range classes {
 		vs := byClass[cl]
+		if len(cl) >= 8 && cl[:8] == "HARNESS/" {
+			fmt.Printf("HARNESS-ERROR: %s (%d cases): %s\n", cl, len(vs), vs[0].Msg)
+			harnessErr = true
+			continue
+		}
 		if k, ok := listed[cl]; ok {
 			fmt.Printf("KNOWN-FINDING: property=%s %s (%d cases this run; e.g. %s)\n", prop, k.What, len(vs), vs[0].Msg)
 			continue
